@@ -58,7 +58,9 @@ def symbols(names, seed):
     # O / M: flagged again by a second cross-check although an earlier validation step already filled them
     # (they still carry the "filled" bit 4 / 5): the bit swap must not depend on it
     table = {"a": (a, 0), "b": (b, 0), "i": (inv, 2), "o": (7.0, 256), "m": (-7.0, 512),
-             "O": (6.0, 256 + 16), "M": (-6.0, 512 + 32)}
+             # ... and information bits of other steps (3: refinement stopped, 10: filled nodata, 11: interval
+             # regularised) that the filling must carry over untouched
+             "O": (6.0, 256 + 16 + 2048 + 8), "M": (-6.0, 512 + 32 + 1024)}
     disp = np.array([table[n][0] for n in names], dtype=np.float32)
     flag = np.array([table[n][1] for n in names], dtype=np.uint16)
     return disp, flag
